@@ -23,6 +23,8 @@ pub enum Ty {
     /// a byte slice (`&[u8]`, `&mut [u8]`, `Vec<u8>` contents) seen as its LENGTH: `len()`, `is_empty()`,
     /// `split_at(n)` / `s[n..]` (both panic when n > len) are the only operations
     Slice,
+    /// a pointer cast to `*const uN` / `*mut uN`: the address (as Ptr) + the access width in bytes
+    TPtr(u32),
     Unknown,
 }
 
@@ -142,6 +144,9 @@ pub struct Spec {
     pub after_loop: Option<usize>,
     /// `let x = ..` statements dropped by the (canonical) name they bind
     pub skip_lets: Vec<&'static str>,
+    /// `self.iter().map(F).fold(INIT, G)` is translated to the triple (INIT, fun <extras of F> => F .., G):
+    /// F a kernel of this group (its extra parameters become the arguments), G `std::cmp::max` / `min`
+    pub iter_fold: Option<&'static str>,
 }
 
 impl Spec {
@@ -178,7 +183,7 @@ impl Spec {
                 match s.as_str() {
                     "u64" | "usize" | "GuestUsize" | "Self :: V" => return Ty::Int(64),
                     "isize" | "i64" => return Ty::ISize,
-                    "u32" => return Ty::Int(32),
+                    "u32" | "i32" | "RawFd" => return Ty::Int(32),
                     "u16" => return Ty::Int(16),
                     "u8" => return Ty::Int(8),
                     "bool" => return Ty::Bool,
@@ -224,7 +229,7 @@ fn base(module: &'static str, group: &'static str, file: &'static str, name: &'s
         recv_groups: vec![], id_methods: vec![], skip_as: vec![], rewrite: vec![], ctors: vec![], argsel: vec![],
         skip_loops: false, ret_wrap: None, note: "",
         type_params: vec![], recv_arg: vec![], break_value: false, loop_cond: false, effects_ret: false, with_locals: vec![],
-        ptr_checked: false, closure_params: vec![], after_loop: None, skip_lets: vec![],
+        ptr_checked: false, closure_params: vec![], after_loop: None, skip_lets: vec![], iter_fold: None,
     }
 }
 
@@ -433,6 +438,12 @@ pub fn table() -> Vec<Spec> {
         s.ptr_checked = true;
         s.step = Some(("N * N * N", "unit"));
         t.push(s);
+        // copy_single: which widths are accepted and that source and destination are accessed with that width
+        // (`p as *const uN` = the address + N/8; the plain `*const u8` pointers of the 1-byte arm carry no width)
+        let mut s = cs("copy_single", "copy_single", Loc::Free("copy_single"));
+        s.canon_params = vec!["align", "src_addr", "dst_addr"];
+        s.effects = vec!["read_volatile", "write_volatile"];
+        t.push(s);
         // copy_slice: the `total <= size_of::<usize>()` threshold: volatile loop vs bulk copy; returns total
         let mut s = cs("copy_slice", "copy_slice", Loc::Free("copy_slice"));
         s.canon_params = vec!["dst", "src", "total"];
@@ -590,6 +601,30 @@ pub fn table() -> Vec<Spec> {
             s.extra = vec![ext(call, "res", "rres N", resn()), ex(exp, "expected", Ty::Int(64))];
             t.push(s);
         }
+    }
+    {
+        // GuestMemory::last_addr: self.iter().map(GuestMemoryRegion::last_addr).fold(GuestAddress(0), std::cmp::max)
+        // as the triple (initial value, mapped function of a region's (start, len), combining function)
+        let mut s = base("Guest", "GuestMemory", gfile, "gm_last_addr", "last_addr", Loc::Trait("GuestMemory", "last_addr"));
+        s.iter_fold = Some("GuestRegion");
+        t.push(s);
+        // src/bytes.rs: Bytes::write_obj = write_slice(val.as_slice(), addr); read_obj = read_slice(zeroed.as_mut_slice(), addr).map(|_| result)
+        let mut s = base("Guest", "BytesTrait", "src/bytes.rs", "bytes_write_obj", "write_obj", Loc::Trait("Bytes", "write_obj"));
+        s.canon_params = vec!["val", "addr"];
+        s.drop_params = vec!["val"];
+        s.param_tys = vec![("addr", Ty::Addr)];
+        s.type_params = vec!["B", "R"];
+        s.extra = vec![ext("val . as_slice ()", "val_bytes", "B", Ty::Unknown)];
+        s.fns = vec![ofn("write_slice", "write_slice", "B -> N -> R", Ty::Unknown)];
+        t.push(s);
+        let mut s = base("Guest", "BytesTrait", "src/bytes.rs", "bytes_read_obj", "read_obj", Loc::Trait("Bytes", "read_obj"));
+        s.canon_params = vec!["addr"];
+        s.param_tys = vec![("addr", Ty::Addr)];
+        s.type_params = vec!["B", "T0"];
+        s.skip_lets = vec!["result"];
+        s.extra = vec![ext("result . as_mut_slice ()", "obj_bytes", "B", Ty::Unknown), ext("result", "result", "T0", Ty::Unknown)];
+        s.fns = vec![ofn("read_slice", "read_slice", "B -> N -> rres unit", Ty::Res(Box::new(Ty::Unit)))];
+        t.push(s);
     }
     // ------------------------------------------------------------------ src/bitmap/backend/slice.rs
     let sfile = "src/bitmap/backend/slice.rs";
@@ -933,6 +968,33 @@ pub fn table() -> Vec<Spec> {
         s.param_tys = vec![("file_offset", opt(Ty::Int(64)))];
         s.extra = vec![ex("file_offset . file () . as_raw_fd ()", "fd", Ty::Int(32))];
         s.id_methods = vec!["start"];
+        t.push(s);
+    }
+    {
+        // ---- third round: MmapXenGrant::{unmap_range, mmap_range, mmap_ioctl} arithmetic and order
+        let ps = || ex("page_size () as usize", "page_size", Ty::Int(64));
+        let g = |name: &'static str, f: &'static str| base("Xen", "Xen", xfile, name, f, Loc::Impl { ty: "MmapXenGrant", tr: None, f });
+        // unmap_range: count of pages(size), drop(unix_mmap) BEFORE unmap_ioctl(count as u32, index)
+        let mut s = g("unmap_range", "unmap_range");
+        s.canon_params = vec!["unix_mmap", "size", "index"];
+        s.param_tys = vec![("unix_mmap", Ty::Unit)];
+        s.extra = vec![ps()];
+        s.effects = vec!["drop", "unmap_ioctl"];
+        t.push(s);
+        // mmap_range: (count, size) = pages(size); index = mmap_ioctl(addr, count)?; MmapUnix::new(size, prot, flags, fd, index)?
+        let mut s = g("mmap_range", "mmap_range");
+        s.canon_params = vec!["addr", "size", "prot"];
+        s.type_params = vec!["U"];
+        s.extra = vec![ps(), ex("self . flags", "flags", Ty::Int(32)), ex("self . as_raw_fd ()", "fd", Ty::Int(32))];
+        s.fns = vec![ofn("mmap_ioctl", "mmap_ioctl", "N -> N -> rres N", Ty::Res(Box::new(Ty::Int(64)))),
+                     ofn("new", "unix_new", "N -> N -> N -> N -> N -> rres U", Ty::Res(Box::new(Ty::Unknown)))];
+        t.push(s);
+        // mmap_ioctl: base = ((addr.0 & !XEN_GRANT_ADDR_OFF) / page_size()) as u32   (XEN_GRANT_ADDR_OFF = 1 << 63)
+        let mut s = g("mmap_ioctl_base", "mmap_ioctl");
+        s.canon_params = vec!["addr", "count"];
+        s.extra = vec![ex("page_size ()", "page_size", Ty::Int(64))];
+        s.consts = vec![("XEN_GRANT_ADDR_OFF".to_string(), "9223372036854775808".to_string(), Ty::Int(64))];
+        s.locals = Some(vec!["base"]);
         t.push(s);
     }
     // ------------------------------------------------------------------ src/endian.rs
